@@ -19,14 +19,14 @@ HCORE = ["P1", "P2", "P3", "C", "N0", "N2", "r0", "G0", "K", "L2", "U1", "U3", "
 
 
 def strided(p, cap, seed):
-    """deterministic, seed-shifted stride over a plan so that at most cap tuples remain"""
+    """deterministic, seed-shifted subsample with a NON-integer stride: an integer stride aliases with the Cartesian product structure
+    (a stride that is a multiple of a trailing column's period would keep that argument constant)"""
     if p.n <= cap:
         return p, False
-    step = int(math.ceil(p.n / cap))
-    off = seed % step
-    cols = [(c[off::step] if not isinstance(c, list) else c[off::step]) for c in p.cols]
-    q = c03.Plan(p.name, p.kind, p.sig, cols, p.op)
-    return q, True
+    u = (seed * 0.6180339887498949 + 0.5) % 1.0
+    idx = np.unique(np.clip(np.floor((np.arange(cap) + u) * (p.n / float(cap))).astype(np.int64), 0, p.n - 1))
+    cols = [[c[i] for i in idx] if isinstance(c, list) else np.asarray(c)[idx] for c in p.cols]
+    return c03.Plan(p.name, p.kind, p.sig, cols, p.op), True
 
 
 def site_of(exe, blobline, cache):
@@ -94,6 +94,24 @@ def run(ctx, B):
                 ctx.violation("%s|%s|%s|sanitizer" % (cfg, p.name, c03.arg_class(p, j)), "%s%r [%s]: AddressSanitizer/UBSan report during the call" % (p.name, tuple(a), cfg),
                               dict(cfg=cfg, variant="asan", calls=[call]))
             ctx.add(nontrivial=int(((r["flags"] & F_ERR) == 0).sum()) + len(set(r["msghash"][(r["flags"] & F_ERR) != 0].tolist())))
+        # --- MemorySanitizer: a value computed from uninitialised stack or heap memory (an undefined access) reaches the caller.
+        #     The driver tests the shadow of every returned value and counts every report the MSan runtime prints.
+        if cfg == "A" or not quick:
+            XM = xrl.Xrl("msan", cfg, build=B)
+            mcap = 40000 if quick else 400000
+            for p0 in plans:
+                if ctx.expired():
+                    break
+                p, st = strided(p0, mcap, ctx.seed + 1)
+                rm = c03.run_plan(XM, p, 0, ctx, cfg, variant="msan")
+                ctx.add(evaluations=p.n)
+                hit = np.nonzero((rm["flags"] & F_SAN) != 0)[0]
+                for j in hit[:40]:
+                    a = c03.argtuple(p, j)
+                    call = dict(fn=p.name, args=a) if p.kind == "fn" else dict(op=p.op, sig=p.sig, args=a)
+                    ctx.violation("%s|%s|%s|uninitialised-value" % (cfg, p.name, c03.arg_class(p, j)), "%s%r [%s]: MemorySanitizer: the result (or a value used on the way) derives from uninitialised memory" % (
+                        p.name, tuple(a), cfg), dict(cfg=cfg, variant="msan", calls=[call]))
+            XM.close()
         # --- hostile user crystals (Zatom out of range, no atoms, NULL name is not constructible through the text spec)
         specs = []
         for Z in (-1, 0, 1, 119, 120, 121, 100000):
@@ -213,7 +231,7 @@ def run(ctx, B):
     ctx.notes["plans_strided_to"] = cap if any_strided else None
     ctx.sample(dict(history="P1 P2 C F f", meaning="parse two formulas, combine them, free the newest then the oldest handle; remaining handle released at the end; live blocks must return to the start value"))
     ctx.sample(dict(file="#S 1 Nm\\n#UCELL 5.4 5.4\\n#L ...", meaning="crystal file with a short #UCELL line: must be rejected without leak or invalid access"))
-    ctx.cov["rule"] = ("(1) the C03 argument product (%s) executed in an ASan+UBSan build and in a build whose allocator seam counts live blocks per call (result and error released "
+    ctx.cov["rule"] = ("(1) the C03 argument product (%s) executed in an ASan+UBSan build, in a MemorySanitizer build (strided; the shadow of every returned value is tested) and in a build whose allocator seam counts live blocks per call (result and error released "
                        "inside the window); (2) hostile user crystal structs; (3) every crystal-file line sequence of length <= %d over a 9-line alphabet, with and without trailing "
                        "newline%s; (4) every operation history of length <= %d over the allocating API (%d ops; %d-op core at the last level) with every release order of the "
                        "handles still live; leaks are keyed by allocation site (first library frame of the allocating call stack)" % (
